@@ -5,7 +5,7 @@ indexing recipe chains under flush schedules (rows genuinely split) x max row en
 {1,2,3,12500} x batch limit {1 byte, 64 bytes, 8 MB} x {the real electrumx_compact_history
 coroutine in one go; stopped after batch k and resumed, for every k; killed after batch k and
 before/after the final flush-count copy to the UTXO DB, then either the tool again or the server
-(which cancels an unfinished compaction)} x {then two more blocks indexed; then a reorg of depth
+(which cancels an unfinished compaction); killed after EVERY durable effect of the run} x {then two more blocks indexed; then a reorg of depth
 1 and re-advance}.
 Oracle: the tx numbers of every script hash are unchanged at every stop point and after every
 reopen; after further blocks / the reorg the history equals the reference indexer.  The
@@ -46,9 +46,36 @@ def r_payyz(sim):
                      [(v // 3, SCRIPT_Y), (v // 3, SCRIPT_Z), (v - 2 * (v // 3), chain.SCRIPTS['A'])])]
 
 
+# two scripts whose hashX share the 2-byte prefix 2278: one compaction pass handles them together
+SCRIPT_P = bytes.fromhex('5100003075')
+SCRIPT_Q = bytes.fromhex('510000ce75')
+assert sha256(SCRIPT_P).digest()[:2] == sha256(SCRIPT_Q).digest()[:2] == b'\x22\x78'
+
+
+def r_paypq(sim):
+    ops = [op for op in sim.spendable(chain.SPENDABLE_KEYS) if sim.utxos[op]['value'] > 10 ** 6]
+    if not ops:
+        return []
+    v = sim.utxos[ops[0]]['value']
+    return [chain.Tx([(ops[0][0], ops[0][1], b'\x01\x51', 0xffffffff)],
+                     [(v // 3, SCRIPT_P), (v // 3, SCRIPT_Q), (v - 2 * (v // 3), chain.SCRIPTS['A'])])]
+
+
+def r_payq(sim):
+    ops = [op for op in sim.spendable(chain.SPENDABLE_KEYS) if sim.utxos[op]['value'] > 10 ** 6]
+    if not ops:
+        return []
+    v = sim.utxos[ops[0]]['value']
+    return [chain.Tx([(ops[0][0], ops[0][1], b'\x01\x51', 0xffffffff)],
+                     [(v // 2, SCRIPT_Q), (v - v // 2, chain.SCRIPTS['A'])])]
+
+
+chain.RECIPES['paypq'] = r_paypq
+chain.RECIPES['payq'] = r_payq
 chain.RECIPES['payyz'] = r_payyz
 CHAINS['edge'] = (['payyz', 'old', 'payyz', 'self', 'payyz', 'new', 'payyz'], 'FHFHF-H')
-MORE_OF = {'edge': ['payyz', 'payyz']}
+CHAINS['twins'] = (['paypq', 'old', 'paypq', 'payq', 'paypq', 'new', 'payq'], 'FHF-HF-')
+MORE_OF = {'edge': ['payyz', 'payyz'], 'twins': ['payq', 'payq']}
 
 
 def load_tool():
@@ -61,7 +88,7 @@ def load_tool():
 
 
 def all_hashXs():
-    return [script_hashX(s) for s in list(SCRIPTS.values()) + [SCRIPT_Y, SCRIPT_Z]]
+    return [script_hashX(s) for s in list(SCRIPTS.values()) + [SCRIPT_Y, SCRIPT_Z, SCRIPT_P, SCRIPT_Q]]
 
 
 def read_histories(history):
@@ -147,6 +174,31 @@ def continue_serving(m, sim, before, res, failures, label, then, max_rows=12500)
             failures.append((f'{label}:reader-retries-forever', dict(error=repr(e))))
         res.count('server_starts_after_compaction')
         if failures or not then:
+            return
+        if then == 'tool-again':
+            # a second compaction of an already compacted database, then the server again
+            w.close(destroy=False)
+            for nth in (2, 3):
+                wc = open_compacting(m, max_rows)
+                try:
+                    tool_loop(wc, 8_000_000 if nth == 2 else 64)
+                    compare_hist(f'{label}:{then}:history-changed-by-compaction-{nth}',
+                                 read_histories(wc.db.history), before, failures)
+                finally:
+                    wc.close(destroy=False)
+                if failures:
+                    return
+            w = world.World(m, reorg_limit=5, activation=ACT)
+            w.daemon.set_chain(blocks)
+            w.start_sync()
+            try:
+                w.run_until_caught_up()
+            except (world.SyncFailed, world.Stalled) as e:
+                failures.append((f'{label}:{then}:died', dict(error=repr(e))))
+                return
+            compare_hist(f'{label}:{then}:served-history-changed', read_histories(w.db.history),
+                         before, failures)
+            res.count('continuations_tool-again')
             return
         if then == 'index,tool,index':
             # the server indexes a block and stops; the tool runs to completion; the server
@@ -241,6 +293,60 @@ def run_case(case, res):
         res.count('die_before_copy_outside_carve_out_skipped')
         m.destroy()
         return
+    if mode == 'kill-at-effect':
+        # the tool is killed after EVERY durable effect it produces (each LevelDB batch commit,
+        # each direct put) - whatever the code considers a batch; then the server, or the tool
+        # again and then the server
+        try:
+            snapshot = m.snapshot()
+            m.log.clear()
+            w = open_compacting(m, max_rows)
+            try:
+                tool_loop(w, limit)
+            finally:
+                w.close(destroy=False)
+            log = list(m.log)
+        finally:
+            m.destroy()
+        res.maxi('effects_in_one_compaction', len(log))
+        inside = carve_out_ok(before, max_rows, flush_count)
+        for k in ([case['cut']] if 'cut' in case else range(len(log) + 1)):
+            if not inside and k == len(log) - 1:
+                # compaction complete, flush count not yet copied to the UTXO DB, more compacted
+                # rows than the flush count: judgment call J2 (the carve-out's mechanism)
+                res.count('die_before_copy_outside_carve_out_skipped')
+                continue
+            for cont in ('server', 'tool-then-server'):
+                failures = []
+                m2 = world.Machine.from_snapshot(snapshot, log[:k])
+                try:
+                    if cont == 'tool-then-server':
+                        w = open_compacting(m2, max_rows)
+                        try:
+                            compare_hist('history-changed-after-kill', read_histories(w.db.history),
+                                         before, failures)
+                            if not failures:
+                                tool_loop(w, limit)
+                                compare_hist('history-changed-after-resumed-compaction',
+                                             read_histories(w.db.history), before, failures)
+                        finally:
+                            w.close(destroy=False)
+                    if not failures:
+                        continue_serving(m2, sim, before, res, failures, f'killed:{cont}',
+                                         case.get('then') if (inside or cont != 'server') else None,
+                                         max_rows)
+                finally:
+                    m2.destroy()
+                res.count('kill_points_x_continuations')
+                res.count('executions')
+                for field, detail in failures[:1]:
+                    res.violation(field, dict(case, cut=k),
+                                  dict(field=field, killed_after_effect=k, continuation=cont,
+                                       effect=[str(x)[:40] for x in log[k - 1][:3]] if k else None,
+                                       **{a: b for a, b in detail.items()
+                                          if a in ('hashX', 'got', 'want', 'error', 'script')}))
+        res.distinct('modes', mode)
+        return
     try:
         if mode == 'tool':
             # the real coroutine of the tool, in one go
@@ -320,8 +426,10 @@ def cases_for(tier):
     cases = []
     for chain_name in CHAINS:
         for rows in (1, 2, 3, 12500):
-            for then in (None, 'index', 'index+reorg'):
+            for then in (None, 'index', 'index+reorg', 'tool-again'):
                 cases.append(dict(chain=chain_name, rows=rows, limit=8_000_000, mode='tool', then=then))
+            cases.append(dict(chain=chain_name, rows=rows, limit=64, mode='stop-resume', k=2,
+                              then='tool-again'))
             for limit in (1, 64, 8_000_000):
                 ks = range(1, 10) if limit == 1 else (1, 2, 3) if limit == 64 else (None,)
                 for k in ks:
@@ -336,6 +444,9 @@ def cases_for(tier):
                                   k=None, then='index+reorg'))
                 cases.append(dict(chain=chain_name, rows=rows, limit=limit, mode='abandon-before-copy',
                                   k=None, then='index+reorg'))
+                if limit != 1 or rows > 1:
+                    cases.append(dict(chain=chain_name, rows=rows, limit=limit, mode='kill-at-effect',
+                                      then='index'))
     return cases
 
 
@@ -363,10 +474,12 @@ def run(tier, seed, started):
         'server_starts_after_compaction': c['server_starts_after_compaction'],
         'continuations_outside_carve_out_skipped': c.get('continuations_outside_carve_out_skipped', 0),
         'die_before_copy_outside_carve_out_skipped': c.get('die_before_copy_outside_carve_out_skipped', 0),
+        'kill_points_x_continuations': c.get('kill_points_x_continuations', 0),
+        'max_effects_in_one_compaction': c.get('max:effects_in_one_compaction'),
         'exhaustive': True,
     }
-    assumptions = ['a compaction batch is one atomic LevelDB batch, so "killed between batches" and '
-                   '"stopped after a batch" leave the same durable state',
+    assumptions = ['a LevelDB batch commit / direct put is atomic (process death); mode '
+                   'kill-at-effect cuts after every one of them, whatever the code calls a batch',
                    'abandoned-then-keep-indexing only inside the property\'s carve-out']
     return finish(PROP, tier, seed, 'fault_enumeration', res, coverage, assumptions, started)
 
